@@ -18,10 +18,21 @@ type EnvState struct {
 	ex        *Exec
 	storeKeys map[string]*StoreKeyObj
 	root      *MultiStore
+	rootUsed  bool
 }
 
 func newEnvState(ex *Exec) *EnvState {
 	return &EnvState{ex: ex, storeKeys: map[string]*StoreKeyObj{}, root: &MultiStore{stores: map[string]*Store{}}}
+}
+
+// freshMS: the first context uses the root multistore; every further NewContext gets its own
+// empty multistore (natively each NewContext builds a new in-memory database).
+func (e *EnvState) freshMS() *MultiStore {
+	if !e.rootUsed {
+		e.rootUsed = true
+		return e.root
+	}
+	return &MultiStore{stores: map[string]*Store{}}
 }
 
 type StoreKeyObj struct{ Name string }
@@ -475,7 +486,7 @@ func init() {
 		h := a[0].(*Term)
 		secs := a[1].(*Term)
 		chain := ex.argStr(a[2], "chain id")
-		return &CtxV{ms: ex.env.root, height: h, time: ex.tf.BVMul(secs, ex.tf.BVu(1000000000, 64)), chainID: chain,
+		return &CtxV{ms: ex.env.freshMS(), height: h, time: ex.tf.BVMul(secs, ex.tf.BVu(1000000000, 64)), chainID: chain,
 			gas: &GasMeterObj{infinite: true, limit: ex.tf.BVu(0, 64), consumed: ex.tf.BVu(0, 64)}, events: &EventMgrObj{}}
 	})
 	reg(rtPkg+"RemountContext", func(ex *Exec, a []Val) Val { return a[0] })
@@ -487,7 +498,7 @@ func init() {
 			ex.unmodelled("context with zero block time")
 		}
 		chain := ex.argStr(a[2], "chain id")
-		return &CtxV{ms: ex.env.root, height: h, time: t.T, chainID: chain,
+		return &CtxV{ms: ex.env.freshMS(), height: h, time: t.T, chainID: chain,
 			gas: &GasMeterObj{infinite: true, limit: ex.tf.BVu(0, 64), consumed: ex.tf.BVu(0, 64)}, events: &EventMgrObj{}}
 	})
 	reg("github.com/cosmos/cosmos-sdk/telemetry.ModuleMeasureSince", func(ex *Exec, a []Val) Val { return nil })
